@@ -276,6 +276,8 @@ def r5(chk, ctx):
 
 
 def run(chk, ctx):
+    from . import generic
+    generic.definite_assignment(chk, ctx, ['arn'], "C17.DA")   # no local is read before it is bound (UnboundLocalError = an arbitrary exception)
     r5(chk, ctx)
     r1(chk, ctx)
     r2_r3(chk, ctx)
